@@ -428,6 +428,68 @@ def dividends(R, rep):
            f"dividend totals also read {sorted(vs - {'Dividend'})}", b.loc(), key="R6:dividends:variants")
 
 
+def summary_reads_own_year(R, rep, rule="R6"):
+    """every tax-year summary takes its dividend figures from the aggregate filed under ITS OWN tax year: in each function that builds a
+    `TaxYearSummary` (helpers and carriers followed back to the caller's terms) the key of the look-up that feeds `dividend_income` /
+    `dividend_tax_paid` names the same year as the summary's `period` — it is the value `period` is built from, or `period.start_year()`.
+    A streaming rewrite that closes year Y when the first leg of year Z arrives and hands over Z's dividends gives Y the figures of a
+    later year — and which one depends on whether later disposals exist (seeded change C12-s8)."""
+    F = R.F
+    SUM = "cgt_core::models::TaxYearSummary"
+    cands = [b for b in F.bodies.values() if b.crate == "cgt_core" and b.kind in ("fn", "method") and "TaxYearSummary" in b.ret and P.user_written(F, b)]
+    called = set()
+    for b in cands:
+        for i, t in b.calls():
+            if t["callee"] != b.id:
+                called.add(t["callee"])
+    for cb in F.bodies.values():
+        if cb.kind == "closure" and cb.parent in {b.id for b in cands}:
+            for i, t in cb.calls():
+                called.add(t["callee"])
+    roots = [b for b in cands if b.id not in called] or cands
+    n = 0
+
+    def strip(t):
+        while isinstance(t, tuple) and t and t[0] in ("ref", "deref", "copied", "some") and len(t) > 1 and isinstance(t[1], tuple):
+            t = t[1]
+        return t
+
+    for b in roots:
+        rg = R.region(b)
+        for ex in rg.expansions:
+            hb = ex["body"]
+            for i, si, st in hb.assigns():
+                rv = st["rv"]
+                if rv["k"] != "agg" or rv["adt"] != SUM:
+                    continue
+                f = rv["fields"]
+                per = ex["conv"](ex["tb"].operand(rv["ops"][f.index("period")]))
+                per_sub = list(subterms(per))
+                for name in ("dividend_income", "dividend_tax_paid"):
+                    if name not in f:
+                        continue
+                    n += 1
+                    dv = ex["conv"](ex["tb"].operand(rv["ops"][f.index(name)]))
+                    gets = [x for x in subterms(dv) if isinstance(x, tuple) and x and x[0] == "call" and parse_callee(x[1])[2] == "get"
+                            and ("HashMap" in x[1] or "BTreeMap" in x[1]) and len(x[2]) == 2]
+                    zero = show(dv) in ("ZERO", "Decimal::ZERO") or (isinstance(dv, tuple) and dv and dv[0] == "const")
+                    ok, why = False, f"`{name}` is {show(dv)[:90]}: not traceable to a look-up of the dividend aggregates"
+                    if zero:
+                        ok, why = False, f"`{name}` is a constant: the year's dividends are not read"
+                    for g in gets:
+                        k = strip(g[2][1])
+                        same = any(k == x for x in per_sub)
+                        if not same and isinstance(k, tuple) and k and k[0] == "call" and parse_callee(k[1])[2] == "start_year" and k[2]:
+                            x0 = strip(k[2][0])
+                            same = x0 == per or any(x0 == x for x in per_sub) or any(per == x for x in subterms(x0))
+                        ok = same
+                        why = (f"`{name}` is read under the year the summary's own period is built from" if same else
+                               f"`{name}` is read under {show(k)[:60]} but the summary's period is {show(per)[:70]}: the summary of one tax year carries another year's dividends")
+                    rep.ob(rule, f"{b.short}:{name}:own-year", ok, why, hb.loc(st["sp"]), key=f"{rule}:{b.short}:{name}:own-year")
+    if not n:
+        rep.unresolved(rule, "summary-dividends", "no construction of a TaxYearSummary with dividend fields found")
+
+
 def exemption(R, rep):
     F = R.F
     n = 0
@@ -570,6 +632,7 @@ def run(ctx, rep):
         if v["instance"] == "GROUP":
             rep.ob("R5", "group:function", False, v["detail"], v["site"], key="R5:group:function")
     dividends(R, rep)
+    summary_reads_own_year(R, rep, "R6")
     exemption(R, rep)
     override_precedence(R, rep)
     merge_values(R, rep)
